@@ -1,5 +1,6 @@
 SPECIFICATION Spec
 CONSTANTS
+  SnapshotChoices = FALSE
   RetryOnAbort = FALSE
   Kinds = {"choice", "plain", "confirm"}
   MaxChoices = 2
@@ -9,6 +10,9 @@ CONSTANTS
   Attempts = {0, 1, 2, 3}
   NDefaults = 4
   Inter = {TRUE, FALSE}
+  Multis = {FALSE, TRUE}
+  Muts = {0}
+  Rounds = 1
 INVARIANT TypeOK
 INVARIANT H_sane
 INVARIANT P_terminates
@@ -21,5 +25,6 @@ INVARIANT P_errors
 INVARIANT P_eof
 INVARIANT P_confirm
 INVARIANT A_prompts
+INVARIANT A_object
 INVARIANT Emit
 PROPERTY Termination
